@@ -84,7 +84,19 @@ impl Pipes {
     let (kr, kw) = pipe2(OFlag::O_NONBLOCK).expect("pipe2");
     let (tr, tw) = pipe2(OFlag::O_NONBLOCK).expect("pipe2");
     let (or, ow) = pipe2(OFlag::O_NONBLOCK).expect("pipe2");
+    // room for the longest marathon script arriving at one instant (the default 64 KiB holds
+    // about 550 events with their foreign records); the output side is read after every batch
+    for fd in [kw, tw] { let _ = nix::fcntl::fcntl(fd, nix::fcntl::FcntlArg::F_SETPIPE_SZ(1 << 20)); }
     Pipes { kbd_r: kr, kbd_w: kw, tab_r: tr, tab_w: tw, out_r: or, out_w: ow }
+  }
+}
+
+/// Feed simulated device bytes into a pipe. If the pipe cannot take them the run no longer
+/// simulates what the script says: that is a defect of the harness (exit 2), never a verdict.
+fn feed(fd: RawFd, buf: &[u8]) {
+  match write(fd, buf) {
+    Ok(n) if n == buf.len() => {}
+    _ => { crate::engine::HARNESS_FAULTS.fetch_add(1, std::sync::atomic::Ordering::Relaxed); }
   }
 }
 impl Drop for Pipes { fn drop(&mut self) { for fd in [self.kbd_r, self.kbd_w, self.tab_r, self.tab_w, self.out_r, self.out_w] { if fd >= 0 { let _ = close(fd); } } } }
@@ -140,14 +152,14 @@ impl ByteLayer for PipeLayer {
     buf.extend(key_record(e));
     let na = tape.below(3); for _ in 0..na { let s = tape.below(10); let a = tape.below(1 << 16); buf.extend(foreign_record(s, a, &mut self.stats, false)); }
     self.stats.records_written += 1 + nb + na;
-    let _ = write(self.p.kbd_w, &buf);
+    feed(self.p.kbd_w, &buf);
   }
   fn push_tab(&mut self, on: bool, tape: &mut Tape) {
     let mut buf = vec![];
     let nb = tape.below(2); for _ in 0..nb { let s = tape.below(7); let a = tape.below(1 << 16); buf.extend(foreign_record(s, a, &mut self.stats, true)); }
     buf.extend(kernel_record(5, 5, EV_SW, 1, on as i32));
     let na = tape.below(2); for _ in 0..na { let s = tape.below(7); let a = tape.below(1 << 16); buf.extend(foreign_record(s, a, &mut self.stats, true)); }
-    let _ = write(self.p.tab_w, &buf);
+    feed(self.p.tab_w, &buf);
   }
   fn read_kbd(&mut self) -> Result<Option<Event>, String> {
     match self.drv.next_keyboard() { Ok(VNext::One(e)) => Ok(Some(e)), Ok(VNext::Busy) => Ok(None), Ok(VNext::End) => Err("the real driver reported End on a pipe that is still open".into()), Err(e) => Err(e) }
